@@ -90,7 +90,7 @@ class _OsProxy:
 
     def scandir(self, p):
         it = os.scandir(p)
-        entries = [types.SimpleNamespace(path=e.path, name=e.name) for e in it]
+        entries = [types.SimpleNamespace(path=e.path, name=e.name, is_file=e.is_file(follow_symlinks=False)) for e in it]
         it.close()
         C._DIR[p] = types.SimpleNamespace(entries=entries)
         return os.scandir(p)
@@ -101,15 +101,20 @@ class _OsProxy:
 
 
 def gen_rollover(tier, rng):
-    """log directories with 0..6 dated files (+ the current link), retention 0..4 days"""
+    """log directories with 0..6 dated files of the handler (one of them dated in the future), the current link, and foreign content
+    (files sorting before / between / after the dated ones, a foreign '<root>-notes.log', a sub-directory as created by getChild),
+    retention 0..4 days, two rotations in a row"""
     import frappy.logging as FL
     C._DIR = {}
     C.DIRLIST = lambda p: C._DIR[p]
     C.dirname = os.path.dirname
+    C.basename = os.path.basename
     names = ['n-2020-01-01.log', 'n-2020-01-02.log', 'n-2020-01-10.log', 'n-2020-02-01.log', 'n-2021-01-01.log', 'n-2019-12-31.log']
+    foreign_sets = [(), ('zz-notes.txt',), ('README',), ('n-notes.log', 'n-2020-01-05.txt'), ('sub/',), ('n-2999-01-01.log',),
+                    ('README', 'zz-notes.txt', 'sub/', 'n-2020-01-03.log.gz')]
     for nfiles in range(0, 7):
         for max_days in range(0, 5):
-            for order in range(2 if tier == 'quick' else 4):
+            for foreign in (foreign_sets if tier != 'quick' or nfiles in (0, 1, 2, 5) else foreign_sets[:2]):
                 d = tempfile.mkdtemp(prefix='verif-roll-')
                 try:
                     chosen = list(names[:nfiles])
@@ -117,13 +122,18 @@ def gen_rollover(tier, rng):
                     removed = []
                     h = FL.LogfileHandler(d, 'n', max_days=max_days)
                     h.stream = h._open()
-                    for n in chosen:
+                    for n in chosen + list(foreign):
+                        if n.endswith('/'):
+                            os.mkdir(os.path.join(d, 'n', n[:-1]))
+                            continue
                         with open(os.path.join(d, 'n', n), 'w') as f:
                             f.write('x')
                     saved = FL.os
                     FL.os = _OsProxy(removed)
                     try:
-                        yield dict(label=f'files={sorted(chosen)} max_days={max_days}', self=h, args={}, ghosts={'removed': removed})
+                        for rotation in (1, 2):
+                            yield dict(label=f'files={sorted(chosen)} foreign={foreign} max_days={max_days} rotation={rotation}',
+                                       self=h, args={}, ghosts={'removed': removed})
                     finally:
                         FL.os = saved
                         if h.stream:
